@@ -92,7 +92,7 @@ def run(ctx):
     ctx.cov["rule"] = ("random metric-time files built through the public API: 1-3 tracks, the tempo events (smf.MetaUndefined(0x51, 3 bytes): every 24-bit "
                        "us/quarter incl. 0, 1, 2^24-1) in one track among other events, resolutions 1..32767, deltas from 0 to 2^32-1, repeated ticks, bursts of "
                        "13-32 changes on one tick, first change at / after tick 0, no tempo event; WriteTo + ReadFrom; SMF.TimeAt at 0,1,2, every sampled change "
-                       "tick -1/+0/+1/+2, track ends, the horizon tick and random ticks (exact time < 2^41 us); TracksReader.Do AbsMicroSeconds of every event; "
+                       "tick -1/+0/+1/+2, track ends, the horizon tick and random ticks (exact time < 2^41 us); TracksReader.Do AbsMicroSeconds of every event, and of the events handed out under six type filters (Only: note-on / channel / meta / tempo / mixed lists); "
                        "MetricTicks.Duration/Ticks on (res 0..65535, bpm float64, ticks uint32) triples inside the domain (duration < 2^40 us, < 10^7 ticks/s). "
                        "evaluations = judged TimeAt queries + Do events + inverse triples; distinct = maps with a non-trivial feature (repeated tick, >12 on a "
                        "tick, first change after 0, extreme uspq, ticks >= 2^32)")
